@@ -5,3 +5,4 @@ import Lessm.Gen.Lalr
 import Lessm.Gen.Words
 import Lessm.Gen.BigWords
 import Lessm.Props.C08
+import Lessm.Props.C17
